@@ -110,6 +110,8 @@ pub struct Sim {
     /// per client: server entities for which a mapping was sent (the client may hold such a mapping although the entity
     /// is not, or never was, shown to it: mappings travel independently of visibility)
     pub premapped: Vec<BTreeSet<Entity>>,
+    /// per client: client entity -> server entity, as ever seen in its entity map during the current session
+    pub hist_map: Vec<BTreeMap<Entity, Entity>>,
     pub sframes: u64,
     pub seq: u32,
     pub semits: Vec<SEmit>,
@@ -211,6 +213,7 @@ impl Sim {
             locked: vec![false; slots],
             prespawned: vec![vec![None; slots]; n],
             premapped: vec![BTreeSet::new(); n],
+            hist_map: vec![BTreeMap::new(); n],
             sframes: 0,
             seq: 0,
             semits: Vec::new(),
@@ -569,6 +572,7 @@ impl Sim {
             *p = None;
         }
         self.premapped[i].clear();
+        self.hist_map[i].clear();
         self.last_u[i] = 0;
         self.last_confirm[i].clear();
         self.snap_struct[i].clear();
@@ -1487,6 +1491,17 @@ impl Sim {
     }
 
     pub fn comps_of(w: &World, e: Entity, to_server: Option<&bevy::ecs::entity::hash_map::EntityHashMap<Entity>>) -> CompMap {
+        Self::comps_of_hist(w, e, to_server, None)
+    }
+
+    /// `hist`: every client entity -> server entity pair the harness has ever seen in this client's entity map. A reference
+    /// held by a component whose target was despawned later still *is* the value of the tick at which it was confirmed.
+    pub fn comps_of_hist(
+        w: &World,
+        e: Entity,
+        to_server: Option<&bevy::ecs::entity::hash_map::EntityHashMap<Entity>>,
+        hist: Option<&BTreeMap<Entity, Entity>>,
+    ) -> CompMap {
         let mut m = BTreeMap::new();
         if let Some(c) = w.get::<A>(e) {
             m.insert("A", c.0 as u64);
@@ -1507,7 +1522,7 @@ impl Sim {
             m.insert("S", c.0 as u64);
         }
         let map = |x: Entity| match to_server {
-            Some(ms) => ms.get(&x).copied().map(|x| x.to_bits()).unwrap_or(u64::MAX),
+            Some(ms) => ms.get(&x).copied().or_else(|| hist.and_then(|h| h.get(&x).copied())).map(|x| x.to_bits()).unwrap_or(u64::MAX),
             None => x.to_bits(),
         };
         if let Some(c) = w.get::<R>(e) {
